@@ -246,11 +246,19 @@ def run_merge_case(cid, c, want_rc, seed, tmproot):
                 argv += ["-s", ".xml"]
         argv += (["-i"] if c["allow"] else []) + (["-n"] if c["nonstrict"] else [])
         outpath = os.path.join(d, "merged.xml")
+        stale = None
         if c["outfile"]:
             argv += ["-o", outpath]
+            if random.Random("%s|%s|stale" % (seed, cid)).random() < 0.5:
+                # the target exists already and is longer than any merged document: -o replaces it, nothing of it remains
+                stale = "<!-- an earlier, longer result -->\n" + "<old>stale</old>\n" * 40000
+                with open(outpath, "w", encoding="utf-8") as f:
+                    f.write(stale)
         rc, out, err = call_main(argv)
         if c["outfile"]:
             content = open(outpath, encoding="utf-8").read() if os.path.exists(outpath) else ""
+            if stale is not None and content == stale:
+                content = ""            # left alone: nothing was written
             wrote = content != ""
         else:
             content = out[:-1] if out.endswith("\n") else out
